@@ -18,6 +18,7 @@ func VerifC34Flush() {
 	s.Topics.Subscribe("c1", sub)
 	cl.State.Subscriptions.Add("t", sub)
 	entered, steps := 0, vParam("STEPS", 4)
+	lastRefused := false // the most recent WritePacket was refused as too large for the client
 	for i := 0; i < steps; i++ {
 		switch vChoose(3) {
 		case 0: // a message for the client enters publishToClient
@@ -25,16 +26,20 @@ func VerifC34Flush() {
 			s.publishToSubscribers(packets.Packet{FixedHeader: packets.FixedHeader{Type: packets.Publish}, TopicName: "t", Payload: make([]byte, n), Origin: "pub"})
 			entered++
 		case 1: // a direct write (e.g. an acknowledgement) while the queue is in whatever state it is
-			_ = cl.WritePacket(packets.Packet{FixedHeader: packets.FixedHeader{Type: packets.Pingresp}})
+			lastRefused = cl.WritePacket(packets.Packet{FixedHeader: packets.FixedHeader{Type: packets.Pingresp}}) == packets.ErrPacketTooLarge
 		case 2: // the write loop takes one queued packet
 			if len(cl.State.outbound) > 0 {
 				pk := <-cl.State.outbound
-				_ = cl.WritePacket(*pk)
+				lastRefused = cl.WritePacket(*pk) == packets.ErrPacketTooLarge
 				cl.State.outboundQty--
 			}
 		}
 	}
-	vFlush(cl) // the write loop catches up: the broker is quiescent now
+	for len(cl.State.outbound) > 0 { // the write loop catches up: the broker is quiescent now
+		pk := <-cl.State.outbound
+		lastRefused = cl.WritePacket(*pk) == packets.ErrPacketTooLarge
+		cl.State.outboundQty--
+	}
 	// OnPacketSent is the broker's report that a packet was sent (its byte argument is empty on the direct
 	// write path, so packets are counted, not bytes)
 	nsent := 0
@@ -47,9 +52,10 @@ func VerifC34Flush() {
 	wire := vParseWire(written, 5)
 	vObserve("written", uint64(len(written)))
 	vAssert("connection-carries-complete-packets-only", wire.Trailing == 0)
-	if len(wire.Pkts) < nsent {
+	if len(wire.Pkts) < nsent && lastRefused {
 		// recorded class: bytes parked in the client's write buffer while the queue was non-empty stay there
-		// when the next queued packet is refused (too large for the client) or nothing follows
+		// when the last queued packet is refused (too large for the client), because the refusal returns
+		// before the flush
 		vAssert("kf-packets-reported-sent-stranded-in-write-buffer", false)
 	}
 	vAssert("everything-reported-sent-is-on-the-connection", len(wire.Pkts) == nsent)
